@@ -867,7 +867,7 @@ func families(thorough bool) []family {
 		for _, pats := range [][]string{{"//..."}, {"//a/b:all"}, {"//a:all"}} {
 			for _, t := range tagFilterSets {
 				for _, test := range []bool{false, true} {
-					for _, host := range []string{"p", "q"} {
+					for _, host := range []string{"p", "q", "pq"} { // os/pq: the selectors os/p is a strict prefix of the host platform
 						for _, all := range []bool{false, true} {
 							q := query{Cur: "ab", Patterns: pats, Tags: t[0], Exclude: t[1], Test: test, Host: host, AllPlatforms: all}
 							qs = append(qs, q)
